@@ -222,7 +222,7 @@ def debug_case(ctx, case, env, name="debug"):
 # bit of the repair mask -> finding id.  A deviation is attributed to a defect when switching exactly that repair on in
 # the model makes the model coincide with the specification on that very case.
 MASK_BITS = [(1, "C03-kind"), (2, "C10-disjoint-empty"), (4, "C03-join-kind"), (8, "C03-bound-alias-nil"),
-             (16, "C03-oid"), (32, "C03-string-object")]
+             (16, "C03-oid"), (32, "C03-string-object"), (128, "C03-spec3-global-bounds")]
 ALL_BIT = 64
 
 
